@@ -63,7 +63,7 @@ ASSUMPTIONS = [
     "version-glob (=...*) and USE-dep semantics of plain atoms are C04's subject and not generated here",
     "vf/ref/pms_version.py is a faithful transcription of PMS version comparison",
 ]
-BUDGET = {"quick": 50, "thorough": 900}
+BUDGET = {"quick": 40, "thorough": 780}
 
 SEEDS = st.integers(0, 2**64 - 1)
 BATCH = 20
